@@ -69,9 +69,15 @@ Definition backed (g : cfg) (w : world) : Prop :=
 (* the defect S-C09d: the saver's array is a map of the target that unmap_if_target does not recognise *)
 Definition risky (g : cfg) (w : world) (s t : nat) : bool :=
   match img_at w s with
-  | Some im => match mapped g im with Some p => Nat.eqb (fid g p) (fid g t) | None => false end && negb (recognised im)
+  | Some im => match mapped g im with Some p => Nat.eqb (fid g p) (fid g t) | None => false end && negb (recognised g im)
   | None => false
   end.
+
+Lemma risky_fixed g w s t : g_viewfix g = true -> risky g w s t = false.
+Proof.
+  intros H. unfold risky. destruct (img_at w s) as [im|]; [|reflexivity].
+  unfold recognised. rewrite H. destruct (i_src im); cbn; rewrite ?orb_true_r; now rewrite andb_false_r.
+Qed.
 
 (* ------------------------------------------------------------------ (1) a save never crashes *)
 Definition is_write (o : op) : bool :=
@@ -127,7 +133,7 @@ Proof.
   destruct (denote g (w_fs w) (reshaped g (with_hdt im0 hd) (tfmt g im0 t))) as [v| |];
     [|left; reflexivity|right; left; reflexivity].
   destruct (writer_refuses g (tfmt g im0 t) od); [left; reflexivity|].
-  destruct (_ && negb (g_fix g && recognised (with_hdt im0 hd))).
+  destruct (_ && negb (g_fix g && recognised g (with_hdt im0 hd))).
   - destruct (_ <? _); [right; left; reflexivity|].
     right; right. exists im0, (mkK None od (i_aff (with_hdt im0 hd)) 0%nat (tfmt g im0 t)), (w_imgs w).
     repeat split; auto.
@@ -166,9 +172,9 @@ Proof.
   destruct (writer_refuses g (tfmt g im0 t) od) eqn:Hw; [left; eauto|].
   unfold risky in Hrk. rewrite Hi in Hrk.
   assert (Hm : mapped g (with_hdt im0 hd) = mapped g im0) by (unfold mapped; now rewrite src_with_hdt).
-  assert (Hrec : recognised (with_hdt im0 hd) = recognised im0) by (unfold recognised; now rewrite src_with_hdt).
+  assert (Hrec : recognised g (with_hdt im0 hd) = recognised g im0) by (unfold recognised; now rewrite src_with_hdt).
   rewrite Hm, Hrec, Hf. cbn [andb].
-  replace (match mapped g im0 with Some p => Nat.eqb (fid g p) (fid g t) | None => false end && negb (recognised im0))
+  replace (match mapped g im0 with Some p => Nat.eqb (fid g p) (fid g t) | None => false end && negb (recognised g im0))
     with false.
   right. exists im0, od, v.
   assert (Ha : i_aff (with_hdt im0 hd) = i_aff im0) by (destruct hd; reflexivity). rewrite Ha.
@@ -238,11 +244,14 @@ Qed.
 
 (* "every save completes without crashing": a save / to_bytes step crashes only if a map the saver reads through
    had already lost its file (S-C09b) or the saver's array is an unrecognised view of a map of the target (S-C09d) *)
-Lemma save_never_crashes g ops w : g_fix g = true ->
-  r_all (fun w o w' x => is_write o = true -> backed g w -> risky_op g w o = false -> x <> OCrash) g w ops.
+Lemma risky_op_fixed g w o : g_viewfix g = true -> risky_op g w o = false.
+Proof. intros H. unfold risky_op. destruct (save_op o) as [[[s t] hd]|]; [now apply risky_fixed|reflexivity]. Qed.
+
+Lemma save_never_crashes g ops w : g_fix g = true -> g_viewfix g = true ->
+  r_all (fun w o w' x => is_write o = true -> backed g w -> x <> OCrash) g w ops.
 Proof.
-  intros Hf. apply (r_all_lift (fun _ => True)); [|exact I].
-  intros w0 o _. split; [|exact I]. intros _ B Hr. now apply backed_step_no_crash.
+  intros Hf Hv. apply (r_all_lift (fun _ => True)); [|exact I].
+  intros w0 o _. split; [|exact I]. intros _ B. apply backed_step_no_crash; auto using risky_op_fixed.
 Qed.
 
 (* ------------------------------------------------------------------ (2) every file written decodes to what the image held *)
@@ -263,7 +272,7 @@ Proof. unfold written. destruct (is_int d); [destruct (fmt_eqb tf Mgh); [|destru
 
 Definition decodes (g : cfg) (w : world) (o : op) (w' : world) (x : out) : Prop :=
   forall s t hd v d a k, save_op o = Some (s, t, hd) -> x = OSaved t v d a k ->
-    backed g w -> risky g w s t = false ->
+    backed g w ->
     exists im0 v0, img_at w s = Some im0
       (* the data the image had at that save (read through the class conversion) *)
       /\ denote g (w_fs w) (reshaped g (with_hdt im0 hd) (tfmt g im0 t)) = RVal v0
@@ -277,9 +286,9 @@ Definition decodes (g : cfg) (w : world) (o : op) (w' : world) (x : out) : Prop 
       (* the saving image is as before, or (its proxy read the target) now holds the written data in memory *)
       /\ img_at w' s = Some (if repoints g im0 (tfmt g im0 t) t then repointed im0 v0 else im0).
 
-Lemma decodes_step g w o : g_fix g = true -> decodes g w o (fst (step g w o)) (snd (step g w o)).
+Lemma decodes_step g w o : g_fix g = true -> g_viewfix g = true -> decodes g w o (fst (step g w o)) (snd (step g w o)).
 Proof.
-  intros Hf s t hd v d a k Hs Hx B Hrk.
+  intros Hf Hvf s t hd v d a k Hs Hx B. pose proof (risky_fixed g w s t Hvf) as Hrk.
   destruct (w_dead w) eqn:Hdead; [unfold step in Hx; rewrite Hdead in Hx; discriminate|].
   destruct (step_save g w o s t hd Hdead Hs) as [E0|[e E0]]; rewrite E0 in *; [|discriminate].
   assert (SB : forall im, img_at w s = Some im -> src_backed g (w_fs w) im) by (intros im H; apply (B s im H)).
@@ -293,9 +302,9 @@ Proof.
   unfold img_at; cbn [w_imgs]. now apply (imgs_after_same g w s t im0 v0).
 Qed.
 
-Lemma files_decode g ops w : g_fix g = true -> r_all (decodes g) g w ops.
+Lemma files_decode g ops w : g_fix g = true -> g_viewfix g = true -> r_all (decodes g) g w ops.
 Proof.
-  intros Hf. apply (r_all_lift (fun _ => True)); [|exact I].
+  intros Hf Hvf. apply (r_all_lift (fun _ => True)); [|exact I].
   intros w0 o _. split; [now apply decodes_step|exact I].
 Qed.
 
@@ -347,17 +356,11 @@ Lemma fmt_eqb_refl f : fmt_eqb f f = true.
 Proof. destruct f; reflexivity. Qed.
 
 Lemma usable_step g w o :
-  g_fix g = true -> g_reshape_ok g = true -> g_repoint g = true -> names_wf g -> classes_ok g w ->
+  g_fix g = true -> g_viewfix g = true -> g_reshape_ok g = true -> g_repoint g = true -> names_wf g -> classes_ok g w ->
   usable g w o (fst (step g w o)) (snd (step g w o)).
 Proof.
-  intros Hf Hr Hp [Hn _] [Hc _] s t hd v d a k Hs Hx B Hown Hclip.
-  assert (Hrk : risky g w s t = false).
-  { unfold risky, own_array_maps in *. destruct (img_at w s) as [im|]; [|reflexivity].
-    unfold mapped, recognised. destruct (i_src im) as [|p0 d0 k0 mm|p0 d0 c0]; cbn.
-    - reflexivity.
-    - now rewrite andb_false_r.
-    - now rewrite Hown. }
-  destruct (decodes_step g w o Hf s t hd v d a k Hs Hx B Hrk)
+  intros Hf Hvf Hr Hp [Hn _] [Hc _] s t hd v d a k Hs Hx B Hown Hclip.
+  destruct (decodes_step g w o Hf Hvf s t hd v d a k Hs Hx B)
     as (im0 & v0 & Hi & Hd & Ho & Ha & Hft & Hv & Hk & Hoth & _ & Hslot).
   set (c := written g (tfmt g im0 t) d v0 a) in *.
   assert (Hv0 : v = v0) by (rewrite Hv; apply written_val; intros (A & B0 & _); apply Hclip; auto).
@@ -461,10 +464,10 @@ Proof.
 Qed.
 
 Lemma usable_all g ops w :
-  g_fix g = true -> g_reshape_ok g = true -> g_repoint g = true -> names_wf g -> classes_ok g w ->
+  g_fix g = true -> g_viewfix g = true -> g_reshape_ok g = true -> g_repoint g = true -> names_wf g -> classes_ok g w ->
   r_all (usable g) g w ops.
 Proof.
-  intros Hf Hr Hp Hn Hc. apply (r_all_lift (classes_ok g)); [|exact Hc].
+  intros Hf Hvf Hr Hp Hn Hc. apply (r_all_lift (classes_ok g)); [|exact Hc].
   intros w0 o Hc0. split; [now apply usable_step|now apply classes_ok_step].
 Qed.
 
